@@ -90,6 +90,7 @@ type Exec struct {
 	timerByPtr map[*value]*modelTimer
 	locks      map[*value]*lockState
 	wgs        map[*value]*int
+	pools      map[*value][]value
 
 	fmtSym   Str // symbolic Error()/String() text of the operand toNative last gave up on
 	fmtSymOK bool
